@@ -264,7 +264,7 @@ class CtlSim:
         text = " ".join(str(a) for a in args)
         if c is not None:
             c.printed.append(text)
-            self.ev("cli_print", c.label, text[:40])
+            self.ev("cli_print", c.label, text.replace(self.tmpdir or "\0", "<tmp>")[:40])
 
     def _cli_current(self):
         t = asyncio.current_task()
